@@ -25,11 +25,12 @@ def rules(ctx):
             ctx.check(ok and n > 0, rid, D + "try_push#false|cannot-grow", "push fails only when the container is full and cannot grow", "try_push can fail although the container could grow", fn.where(r), fn=fn)
     for fn in flow._shapes(ctx, D + "try_pop"):
         stores = flow.find(fn, BOTTOM_STORE)
-        tl = [e for e in flow.find(fn, {"k": "call", "field": "chase_work_stealing_deque::_top", "op": "load"}) if fn.atomic(e)["orders"] == ["seq_cst"]]
-        dec = [s for s in stores if fn.atomic(s)["orders"] == ["seq_cst"]]
+        # the speculative decrement: the store to _bottom that precedes every other store to _bottom; the deciding load of _top: the one(s) after it
+        dec = [s_ for s_ in stores if all(s_ == o or fn.before(s_, o) for o in stores)]
+        tl = [e for e in flow.find(fn, {"k": "call", "field": "chase_work_stealing_deque::_top", "op": "load"}) if any(fn.before(d, e) for d in dec)]
         inst = D + "try_pop"
         if not dec or not tl:
-            ctx.bad(rid, inst + "#dec<top-load", "try_pop must publish the decremented _bottom (seq_cst store: %d) before re-reading _top (seq_cst load: %d)" % (len(dec), len(tl)), fn.where(), fn=fn)
+            ctx.bad(rid, inst + "#dec<top-load", "try_pop must publish the decremented _bottom (first store to _bottom: %d) and re-read _top afterwards (loads after it: %d)" % (len(dec), len(tl)), fn.where(), fn=fn)
             continue
         ctx.check(all(any(fn.before(d, t) for d in dec) for t in tl), rid, inst + "#dec<top-load", "speculative decrement of _bottom precedes the seq_cst load of _top",
                   "_top is read before the decremented _bottom is published: owner and thief can both take the last item", fn.where(tl[0]), fn=fn)
